@@ -7,6 +7,7 @@ import Mimic.Extracted.Handlers
 import Mimic.Extracted.Protocol
 import MimicProofs.HandlersCode
 import MimicProofs.CommandLoop
+import MimicProofs.Monotone
 /-!
 # C03 — Every command gets exactly one complete, well-formed response (lockstep)
 
@@ -679,6 +680,26 @@ theorem code_loop_composes (E : Mimic.Py.Env S) (cp : S → Nat) (pc : Nat → M
       = if (command_loop E cp pc coldef parse app ur fls fcd other err c ps).2 then command_loop E cp pc coldef parse app ur fls fcd other err c ps
         else command_loop E cp pc coldef parse app ur fls fcd other err (command_loop E cp pc coldef parse app ur fls fcd other err c ps).1 qs :=
   loop_append E cp pc coldef parse app ur fls fcd other err c ps qs
+
+open MimicProofs.Monotone in
+/-- **Nothing once written is ever retracted or reordered by a later command.**  For every conversation `ps ++ qs`: what has been
+    put on the wire (and every drain, reset and `use` call) after serving `ps` is a prefix of what is there after serving
+    `ps ++ qs`; and one iteration on any packet only extends what was there.  Holds for every behaviour of parsers, application
+    and row sources, whether handlers return or raise; the one untranslated handler (`handle_change_user`, the parameter
+    `other`) is assumed to extend the effects too (`hother`) — the thirteen translated ones are proved to. -/
+theorem code_nothing_written_is_retracted (E : Mimic.Py.Env S) (cp : S → Nat) (pc : Nat → Mimic.Py.Bytes) (coldef : Nat → Nat → Mimic.Py.Bytes)
+    (parse : Connection S → Mimic.Py.Bytes → Option (ComStmtExecute S)) (app : S → Option (ResultSet S))
+    (ur : S → Bool) (fls : Mimic.Extracted.ParsersCode.ComFieldList S → S) (fcd : Nat → S → Mimic.Py.Bytes → Mimic.Py.Bytes)
+    (other : Nat → Connection S → Mimic.Py.Bytes → Except (Connection S) (Connection S)) (err : Connection S → Mimic.Py.Bytes)
+    (hother : ∀ k c d, Ext c (other k c d)) (c : Connection S) (ps qs : List Mimic.Py.Bytes) :
+    (command_loop E cp pc coldef parse app ur fls fcd other err c ps).1.out <+: (command_loop E cp pc coldef parse app ur fls fcd other err c (ps ++ qs)).1.out ∧
+    ∀ data : Mimic.Py.Bytes, c.out <+: (command_step E cp pc coldef parse app ur fls fcd other err c data).1.out :=
+  ⟨loop_prefix E cp pc coldef parse app ur fls fcd other err hother c ps qs, fun data => step_ext E cp pc coldef parse app ur fls fcd other err hother c data⟩
+
+/-- non-vacuity of `hother`: a handler that writes one packet and returns, and one that raises at once -/
+example (c : Connection S) (p : Mimic.Py.Bytes) :
+    MimicProofs.Monotone.Ext c (.ok { c with out := c.out ++ [Ev.write p true] }) ∧ MimicProofs.Monotone.Ext c (.error c) :=
+  ⟨List.prefix_append _ _, List.prefix_refl _⟩
 
 /-- non-vacuity: a conversation of an empty packet, an unsupported byte and a COM_QUIT followed by a pipelined ping -/
 example : MimicProofs.CommandLoop.served [[], [0x63], [1], [14]] = [[], [0x63], [1]] := by decide
